@@ -94,7 +94,15 @@ Rules ==
      [r |-> "param-without-colon-dot", ss |-> <<Raw(<<"func pp a.num">>), Raw(<<"    print a">>), Raw(<<"end">>), Raw(<<"pp 1">>)>>, sites |-> {"top0", "top1"}],
      [r |-> "param-without-colon-dots", ss |-> <<Raw(<<"func pp a...num">>), Raw(<<"    print a">>), Raw(<<"end">>), Raw(<<"pp 1">>)>>, sites |-> {"top0", "top1"}],
      [r |-> "handler-param-without-colon", ss |-> <<Raw(<<"on down x=num y:num">>), Raw(<<"    print x y">>), Raw(<<"end">>)>>, sites |-> {"top0", "top1"}],
-     [r |-> "typed-decl-with-stray", ss |-> <<Raw(<<"td:num 5">>), Raw(<<"print td">>)>>, sites |-> Sites] >>
+     [r |-> "typed-decl-with-stray", ss |-> <<Raw(<<"td:num 5">>), Raw(<<"print td">>)>>, sites |-> Sites],
+     [r |-> "unused-shadowed-in-if", ss |-> <<Raw(<<"us := 1">>), Raw(<<"if true">>), Raw(<<"    us := 2">>), Raw(<<"    print us us">>), Raw(<<"    print us">>), Raw(<<"end">>)>>, sites |-> Sites],
+     [r |-> "unused-shadowed-by-loop-variable", ss |-> <<Raw(<<"us := 1">>), Raw(<<"for us := range 2">>), Raw(<<"    print us us">>), Raw(<<"    print us">>), Raw(<<"end">>)>>, sites |-> Sites],
+     [r |-> "unused-shadowed-in-while", ss |-> <<Raw(<<"us := 1">>), Raw(<<"while false">>), Raw(<<"    us := 2">>), Raw(<<"    print us us us">>), Raw(<<"end">>)>>, sites |-> Sites],
+     [r |-> "unused-shadowed-nested-twice", ss |-> <<Raw(<<"us := 1">>), Raw(<<"if true">>), Raw(<<"    us := 2">>), Raw(<<"    if true">>), Raw(<<"        us := 3">>), Raw(<<"        print us us us">>), Raw(<<"    end">>), Raw(<<"    print us">>), Raw(<<"end">>)>>, sites |-> Sites],
+     [r |-> "unused-shadowed-by-parameter", ss |-> <<Raw(<<"us := 1">>), Raw(<<"func up us:num">>), Raw(<<"    print us us">>), Raw(<<"    print us">>), Raw(<<"end">>), Raw(<<"up 2">>)>>, sites |-> {"top0", "top1"}],
+     [r |-> "unused-shadowed-by-handler-parameter", ss |-> <<Raw(<<"us := 1">>), Raw(<<"on up us:num y:num">>), Raw(<<"    print us us y">>), Raw(<<"    print us">>), Raw(<<"end">>)>>, sites |-> {"top0", "top1"}],
+     [r |-> "unused-typed-shadowed", ss |-> <<Raw(<<"us:string">>), Raw(<<"if true">>), Raw(<<"    us := 2">>), Raw(<<"    print us us">>), Raw(<<"end">>)>>, sites |-> Sites],
+     [r |-> "unused-assigned-only-outer", ss |-> <<Raw(<<"if true">>), Raw(<<"    uo := 1">>), Raw(<<"    if true">>), Raw(<<"        uo := 2">>), Raw(<<"        print uo uo">>), Raw(<<"    end">>), Raw(<<"end">>)>>, sites |-> Sites] >>
 
 \* ---- stray text after the n-th `end` line: the edit is carried in the case (fields n, extra) and
 \* applied to the rendered text by the check (append extra to the n-th line that consists of `end`)
